@@ -33,7 +33,7 @@ ASSUMPTIONS = ['len argument equals the length of the supplied buffer (exact-siz
                'callers of the (library-internal) iterator do not raise frame_max above 0 on an iterator created with nb_frames = 0',
                'extension payload pointers supply at least len readable bytes']
 REQUIRED_THEOREMS = ['OpusProps.C16.iter_safe', 'OpusProps.C16.iter_terminates', 'OpusProps.C16.count_parse_agree',
-                     'OpusProps.C16.parse_ext_stable_sort',
+                     'OpusProps.C16.parse_ext_stable_sort', 'OpusProps.C16.find_spec',
                      'OpusProps.C16.generate_dry_eq_written', 'OpusProps.C16.generate_exact_and_smaller',
                      'OpusProps.C16.generate_within', 'OpusProps.C16.generate_bad_arg', 'OpusProps.C16.generate_bad_len',
                      'OpusProps.C16.generate_parse', 'OpusProps.C16.generate_parse_padded', 'OpusProps.C16.generate_parse_ext',
